@@ -373,6 +373,7 @@ def render_stub(unit: Unit, repo: Repo, log: list) -> str:
 PRELUDE = """// GENERATED by /verif/vx — do not edit.  Unit under proof: {unit}
 #![allow(unused_imports, dead_code, unused_variables, non_snake_case)]
 use vstd::prelude::*;
+use vstd::multiset::Multiset;
 use std::cmp::{{max, min, Ordering}};
 verus! {{
 global size_of usize == 8;
@@ -387,7 +388,7 @@ def build_world(target: str | None, units: dict[str, Unit], repo: Repo, mutate=N
     parts.append(open(os.path.join(CONTRACTS, "spec_arith.rs")).read())
     parts.append(check_trait_sigs(repo, log))
     parts.append(extract_types(repo, log))
-    for f in ("spec_nodes.rs", "spec_rfc.rs", "helpers.rs", "query_trait.rs", "spec_desc.rs"):
+    for f in ("spec_nodes.rs", "spec_rfc.rs", "helpers.rs", "query_trait.rs", "spec_desc.rs", "spec_multiset.rs"):
         p = os.path.join(CONTRACTS, f)
         if os.path.exists(p):
             parts.append(open(p).read())
